@@ -48,10 +48,14 @@ def _val(rng):
     r = rng.random()
     if r < 0.15:
         return ""
+    if r < 0.2:
+        return rng.choice(gen.VALUE_LIKE).replace(":", "\\:").replace("#", "\\#")
     pool = ["a", "B", "0", "1", " ", "=", ",", ".", "\\:", "\\;", "\\\\", "\\#", "\\/", "#", "/",
             "\n", "\r\n", "\t", "\u00e9", "\u3042", "x//c\n", "\\//",
             # text that is not in a Unicode normal form, also reached through an escape
-            "e\u0301", "e\\\u0301", "\u0301", "\u212b", "\u2126", "\u1100\u1161", "\ufb01"]
+            "e\u0301", "e\\\u0301", "\u0301", "\u212b", "\u2126", "\u1100\u1161", "\ufb01",
+            # lines made of blanks only inside a value, indented continuation lines
+            "\n \n", "\n\t\n", "\n    x\n    y\n", "  \n"]
     n = rng.randint(1, 7)
     return "".join(rng.choice(pool) for _ in range(n))
 
@@ -299,6 +303,7 @@ def generate(prop, rng, run, tier):
     cfg["facade"] = gen.wchoice(rng, [("simfs", 46), ("native", 46), ("memoryfs", 4), ("realos", 4)])
     cfg["fmt"] = fmt
     cfg["save_via"] = rng.choice(["serialize", "str", "str"])
+    cfg["reload_via"] = rng.choice(["open", "open", "ctor-string", "ctor-file"])
     if rng.random() < 0.25:
         # history: str() of another object fails part-way first
         cfg["failed_str_first"] = rng.choice(["int-value", "premature", "chart-without-notes"])
@@ -851,7 +856,22 @@ def check_c04(sc, res):
         bytes1 = bytes(disk.snapshot()[0][norm_(out1)])
         # ---- restart; load 2 strictly, same format
         try:
-            sf2 = sfm.open(fa.p(out1), strict=True, **fkw)
+            reload_via = cfg.get("reload_via", "open")
+            text1 = None
+            if reload_via != "open":
+                try:
+                    text1 = bytes1.decode("utf-8")
+                except UnicodeDecodeError:
+                    text1 = None
+                if text1 is None or "\r" in text1:
+                    reload_via = "open"       # (line-break translation is the text layer's)
+            if reload_via == "open":
+                sf2 = sfm.open(fa.p(out1), strict=True, **fkw)
+            elif reload_via == "ctor-string":
+                sf2 = type(sf1)(string=text1, strict=True)
+            else:
+                sf2 = type(sf1)(file=io.StringIO(text1), strict=True)
+            res.stats["probe:reload-via:" + reload_via] += 1
         except Exception as e:
             gapped("saved-output-does-not-load", exc=repr(e), output=bytes1[:400].decode("utf-8", "replace"))
             return
